@@ -259,6 +259,12 @@ def bounded(rep):
     for res in R.first_in_process_cases():
         rep.add_bounded(f"{P}/bounded.{res['name']}", res['ok'], res['detail'], replay={'kind': 'c04.first', 'name': res['name']})
         n += 1
+    for res in R.argument_container_cases():
+        rep.add_bounded(f"{P}/bounded.{res['name']}", res['ok'], res['detail'], replay={'kind': 'c04.arguments', 'name': res['name']})
+        n += 1
+    for res in R.fill_rule_history_cases():
+        rep.add_bounded(f"{P}/bounded.{res['name']}", res['ok'], res['detail'], replay={'kind': 'c04.fill_history', 'name': res['name']})
+        n += 1
     for res in R.process_state_cases():
         rep.add_bounded(f"{P}/bounded.{res['name']}", res['ok'], res['detail'], replay={'kind': 'c04.process_state', 'name': res['name']})
         n += 1
